@@ -31,14 +31,12 @@ ASSUMPTIONS = [
     "big endian words: valid lanes are the low lanes of int.from_bytes(chunk, 'big') (the class's own convention)",
 ]
 BOUNDS = "BMC from reset, K = 2*words+8 (two back-to-back transmissions fit), start/ready/max_length/start_position " \
-         "free every cycle; constants of 2..6 bytes (8 bit) and 5..12 bytes (32 bit, 4 valid bits), little/big endian, " \
+         "free every cycle; constants of 1..6 bytes (8 bit) and 2..12 bytes (32 bit, 4 valid bits; incl. one-word ROMs), little/big endian, " \
          "with and without max_length; serializer lengths 1..4 with and without max_length"
 OUTSIDE = "start_position beyond the data (clamped by the DUT; behaviour unspecified by the statement); " \
           "output_length is only checked for start_position == 0 (its documentation ignores start_position; " \
           "for start_position > 0 it reports min(max_length, total length), not the number of bytes sent); " \
-          "data widths other than 8/32; non-bytes initialisers; constants longer than 12 bytes; constants that fit " \
-          "one ROM word (1 byte at width 8, 1..4 bytes at width 32: the depth-1 memory has a zero-width address " \
-          "that the NIR->z3 translator does not handle)"
+          "data widths other than 8/32; non-bytes initialisers; constants longer than 12 bytes"
 
 
 def _words(data, bpw, endian):
@@ -275,13 +273,13 @@ def _bytes(n, seed):
 def _configs(tier):
     cfgs = []
     # (length, max_length_width) / (length, endianness, max_length_width)
-    q8 = [(5, 4), (6, None), (2, 2)]
-    q32 = [(7, "little", 4), (6, "big", None), (8, "little", 4), (9, "big", 4)]
+    q8 = [(5, 4), (6, None), (1, 2)]
+    q32 = [(7, "little", 4), (6, "big", None), (8, "little", 4), (11, "big", 4), (3, "little", 3)]
     qser = [(2, 2), (3, None), (4, 3)]
     if tier != "quick":
-        q8 += [(2, None), (3, 3), (4, None), (6, 3), (3, 2)]
+        q8 += [(2, None), (2, 2), (3, 3), (4, None), (6, 3), (3, 2), (1, None)]
         q32 += [(5, "little", 4), (5, "big", None), (6, "little", None), (8, "big", 4), (10, "little", 4),
-                (11, "big", 4), (12, "little", None), (12, "big", 4), (5, "little", 2)]
+                (11, "big", 4), (12, "little", None), (12, "big", 4), (5, "little", 2), (9, "big", 4), (4, "big", 3), (2, "little", None)]
         qser += [(1, 1), (1, None), (2, None), (3, 3), (4, None)]
     seen = set()
     for n, mw in q8:
@@ -307,10 +305,7 @@ def _configs(tier):
 def queries(tier):
     qs = [Query("probe_elab_nomax", ElabProbe, 2,
                 desc="ConstantStreamGenerator(max_length_width=None) -- the constructor default -- must elaborate")]
-    broken = _elab_error() is not None
     for tag, kw, nwords in _configs(tier):
-        if broken and kw["kind"] == "const" and kw["maxw"] is None:
-            continue    # cannot be elaborated on this tree; reported by probe_elab_nomax
         f = (lambda kw=kw: GenHarness(**kw))
         K = 2 * nwords + (8 if tier == "quick" else 10)
         qs.append(Query(f"bmc_{tag}", f, K, timeout=300, split=False,
